@@ -147,6 +147,9 @@ def main(argv):
     nproc = min(16, max(1, len(goals)))
     os.environ['LPV_JOBS'] = str(max(2, min(8, 32 // nproc)))
     results = par.pmap(run_goal, [(g, budget) for g in goals], nproc)
+    if tier == 'thorough':
+        from . import replay as _rp
+        meta['witness_replays'] = _rp.run_witnesses(pid)
     if tier == 'thorough' and not os.environ.get('LPV_REPO'):
         meta['seeded_self_test'] = seeded_self_test(pid, seed)
         if pid == 'C20':
